@@ -84,6 +84,18 @@ CHECKS = {
         note=TB + " Partial: only the value codec is proved; that the client builds requests for any argument size and that both sides call the same function is observed end to end, not modelled.",
         technique="Lean 4 proof (mutual structural induction) + translator + differential correspondence + paired execution",
         design="6/C15"),
+    "C16": dict(
+        text=("Lean 4 theorems over a protocol-level model of the VM's FFI client (cop_recv_header, the receive half of vm_ffi_call_cop, the "
+              "stop-at-first-failed-call harness) with the peer as an arbitrary byte stream per reply and the OS's SIGPIPE behaviour as a "
+              "parameter: with SIGPIPE ignored every run ends with status 0 or 1, never by a signal, and 0 only if every call was answered "
+              "(contained, by induction over the calls); without it a peer that stopped reading kills the VM (killed_without_sigign); a reply is "
+              "accepted exactly when it is a well-formed, fully delivered, decodable FFI_RESULT (reply_ok_iff); announced lengths are bounded "
+              "before use (payload_bounded). Tie: a scripted stand-in for nano_cop runs against the real nano_vm --isolate-ffi: the whole "
+              "malformed-reply catalogue at each call compared with the model's prediction, and protocol steps x {exit, SIGKILL, close stdin/"
+              "stdout} checked against the property's own oracle (exit 0 complete / exit 1 reported with intact prefix, no signal, no orphan)."),
+        note=TB + " Partial: process behaviour (fork/exec, waitpid, SIGTERM escalation, pipe buffering and timing) is a parameter or observed, not modelled; a peer that stays alive and silent blocks the VM (outside the property's fault list).",
+        technique="Lean 4 proof (decision logic + induction over calls) + scripted-peer fault enumeration against the real binary",
+        design="6/C16"),
 }
 
 NOT_APPLICABLE = {
